@@ -46,6 +46,7 @@ fn main() {
                 "c01" => gen_tok::gen_c01(&mut out, seed, thorough),
                 "c02" => gen_tok::gen_c02(&mut out, seed, thorough),
                 "c03" => gen_tok::gen_c03(&mut out, seed, thorough),
+                "c04" => gen_paserk::gen_c04(&mut out, seed, thorough),
                 "c05" => gen_paserk::gen_c05(&mut out, seed, thorough),
                 "c06" => gen_paserk::gen_c06(&mut out, seed, thorough),
                 "c07" => gen_paserk::gen_c07(&mut out, seed, thorough),
